@@ -440,6 +440,19 @@ def h_pk_span(prop, case, facts, n=5, timeout=900):
                    stubs=STUB_SIMD if facts[case.key]["teddy_bytes"] else (), unwindset=pk_unwindset(case, facts))
 
 
+def h_pk_prim(prop, lo=0, hi=13, timeout=900):
+    """is_prefix / is_prefix_raw / is_equal_raw as units: needle lengths lo..hi, haystack two bytes longer
+    (symbolic offset 0..2: the needle ends flush with, or 1-2 bytes before, the end of the exact object)."""
+    name = "h_pkprim_%d_%d" % (lo, hi)
+    body = "\n".join("    t::pk_prim%s::<%d, %d>();" % ("" if pn else "_nc", pn + 2, pn) for pn in range(lo, hi + 1))
+    body += "\n    t::pk_prim_nc::<3, 5>();\n    t::pk_prim_nc::<0, 0>();"
+    meta = dict(template="pk_prim", replay_template="pk_prim", needle_lengths=[lo, hi],
+                symbolic=["haystack bytes (exactly sized object)", "needle bytes (exactly sized object)", "offset"],
+                note="every packed variant (Rabin-Karp, slim/fat Teddy, 128/256 bit) confirms candidates through these primitives")
+    return Harness(name, None, body, hi + 3, [], meta, timeout=timeout,
+                   functions=["packed::pattern::{is_prefix,is_equal_raw}", "packed::pattern::Pattern::is_prefix_raw"])
+
+
 def h_pk_teddy(prop, case, facts, length, off, w, pad, timeout=2400, mem_gb=20):
     f = facts[case.key]
     name = "h_pkteddy_%s_l%d_o%d_w%d_p%02x" % (case.name, length, off, w, pad)
@@ -1143,7 +1156,7 @@ def _schedule(prop, tier, seed):
         cases += tcases
 
         def mk(facts):
-            hs = []
+            hs = [h_pk_prim(prop, 0, 7), h_pk_prim(prop, 8, 13)]
             for c in cases:
                 f = facts[c.key]
                 if c in tcases:
